@@ -126,7 +126,7 @@ Section FileOps.
                 | _ =>
                   let at_ := if has (hd_mode f) OpenAppend then Z.of_nat (length d) else hd_at f in
                   let d' := write_at_data d (Z.to_nat at_) b in
-                  (with_heap s (upd h c (NFile d' k i m)), set_at (at_ + Z.of_nat (length b)),
+                  (with_heap s (upd h c (NFile d' k i (drop_privs (v_user v) m))), set_at (at_ + Z.of_nat (length b)),
                    RInt (Z.of_nat (length b)))
                 end
             end
@@ -150,7 +150,7 @@ Section FileOps.
                   else
                     (* diff := off + len(b) - size ; if diff > 0 extend : even for an empty b *)
                     let d' := write_at_data d (Z.to_nat off) b in
-                    (with_heap s (upd h c (NFile d' k i m)), RInt (Z.of_nat (length b)))
+                    (with_heap s (upd h c (NFile d' k i (drop_privs (v_user v) m))), RInt (Z.of_nat (length b)))
               end
           end
       end end.
@@ -197,7 +197,7 @@ Section FileOps.
               | None => (s, RFail (if isw then EW_AccessDenied else EC_InvalidArgument))
               | Some (d, k, i, m) =>
                   if negb (has (hd_mode f) OpenWrite) then (s, RFail (if isw then EW_AccessDenied else EC_InvalidArgument))
-                  else (with_heap s (upd h c (NFile (truncate_data d size) k i m)), ROk)
+                  else (with_heap s (upd h c (NFile (truncate_data d size) k i (drop_privs (v_user v) m))), ROk)
               end
           end
     end.
@@ -250,7 +250,7 @@ Section FileOps.
             else match get h c with
                  | Some n =>
                      if check_permission (node_meta n) OpenWrite (v_user v)
-                     then (with_heap s (upd h c (set_meta n (with_owner (node_meta n) uid gid))), ROk)
+                     then (with_heap s (upd h c (set_meta n (chown_meta n (v_user v) uid gid))), ROk)
                      else (s, RFail EOpNotPermitted)
                  | None => (s, RPanic)
                  end
